@@ -14,6 +14,7 @@ Typing preconditions (these are the Rust types, not restrictions): lengths are `
 (`< 2^64`), `maximum_cmd_length` is a `u32`, `next_req_id` is a `u16`.
 -/
 import CamVerif.Proofs.C07
+import CamVerif.Proofs.C07Stream
 import CamVerif.Props.C06
 namespace CamVerif.C07
 open CamVerif CamVerif.Control
@@ -39,6 +40,17 @@ theorem ops_total (hh : Honest dev) (p : Profile) (s : St σ) (a n : Nat) (data 
 theorem initialize_config_total (hh : Honest dev) (p : Profile) (s : St σ) :
     (initializeConfig dev p s).2 ≠ .panic :=
   (initializeConfig_inv hh p s).no_panic
+
+/-- **disable_streaming_total**: `disable_streaming` — the cached lookups `sirm()` → `sbrm()` →
+`abrm()` (up to four register reads, any cache state), the SIRM-available capability bit, the
+checked address of SI_CONTROL and one 4-byte write — returns `Ok` or an error, never panics,
+whatever the device answers and whatever addresses / capabilities its bootstrap registers
+advertise (SIRM unavailable, SI_CONTROL beyond the address space, …), on an open or closed
+handle, both profiles. -/
+theorem disable_streaming_total (hh : Honest dev) (p : Profile) (s : St σ) (c : Caches)
+    (hid : s.h.nextReqId < 2 ^ 16) (hu32 : s.h.cfg.maxCmd < 2 ^ 32) :
+    (disableStreaming dev p s c).2.2 ≠ .panic :=
+  disableStreaming_inv hh p s c hid hu32
 
 /-! ## 2. ok_is_genuine -/
 
@@ -232,7 +244,114 @@ theorem open_failure_closes (hh : Honest dev) (p : Profile) (s : St σ)
   obtain ⟨_, _, _, _, h5, h6⟩ := open_inv hh p s
   exact ⟨h5, fun e he => h6 e he hclosed⟩
 
+/-! ## 5. request ids over whole histories, re-opening -/
+
+/-- one call of the public control API -/
+inductive Call where
+  | «open»
+  | close
+  | read (a n : Nat)
+  | write (a : Nat) (data : Bytes)
+
+/-- the Rust types of the arguments (lengths are `usize`) -/
+def Call.Typed : Call → Prop
+  | .read _ n => n < 2 ^ 64
+  | .write _ data => data.length < 2 ^ 64
+  | _ => True
+
+/-- state after one call (its result — `Ok` or any error — is dropped) -/
+def runCall (dev : Dev σ) (p : Profile) (s : St σ) : Call → St σ
+  | .open => (Control.open dev p s).1
+  | .close => (Control.close dev s).1
+  | .read a n => (Control.read dev p s a n).1
+  | .write a data => (Control.write dev p s a data).1
+
+/-- state after a history of calls -/
+def runCalls (dev : Dev σ) (p : Profile) : List Call → St σ → St σ
+  | [], s => s
+  | c :: cs, s => runCalls dev p cs (runCall dev p s c)
+
+/-- one call: id accounting, and the typing invariants it preserves -/
+theorem call_ids (hh : Honest dev) (p : Profile) (s : St σ) (c : Call) (hc : c.Typed)
+    (hid : s.h.nextReqId < 2 ^ 16) (hu32 : s.h.cfg.maxCmd < 2 ^ 32) :
+    (∃ evs, (runCall dev p s c).logRev = evs ++ s.logRev ∧
+      IdsOk s.h.nextReqId (runCall dev p s c).h.nextReqId evs) ∧
+    (runCall dev p s c).h.nextReqId < 2 ^ 16 ∧ (runCall dev p s c).h.cfg.maxCmd < 2 ^ 32 := by
+  cases c with
+  | «open» =>
+    obtain ⟨h1, h2⟩ := open_ids hh p s
+    exact ⟨h1, (open_inv hh p s).2.2.1 hid, h2 hu32⟩
+  | close =>
+    simp only [runCall, Control.close]
+    by_cases hop : (!s.h.opened) = true
+    · simp only [if_pos hop]
+      exact ⟨⟨[], by simp, IdsOk.nil _⟩, hid, hu32⟩
+    · simp only [if_neg hop]
+      have h1 := (ctlReq_inv (dev := dev) s .release).1
+      rcases e1 : ctlReq dev s .release with ⟨s1, r1⟩
+      rw [e1] at h1; simp only at h1
+      rcases r1 with u | e | _
+      · exact ⟨h1.ids, h1.id16 hid, h1.u32 hu32⟩
+      · exact ⟨h1.ids, h1.id16 hid, h1.u32 hu32⟩
+      · exact ⟨h1.ids, h1.id16 hid, h1.u32 hu32⟩
+  | read a n =>
+    obtain ⟨h1, _⟩ := read_inv hh p s a n hc
+    exact ⟨h1.ids, h1.id16 hid, by simp only [runCall]; rw [h1.cfg]; exact hu32⟩
+  | write a data =>
+    obtain ⟨h1, _⟩ := write_inv hh p s a data hc hu32 hid
+    exact ⟨h1.ids, h1.id16 hid, by simp only [runCall]; rw [h1.cfg]; exact hu32⟩
+
+/-- **ids_continue_across_history**: over ANY history of `open` / `close` / `read` / `write`
+calls — in any order, with any outcomes, against an arbitrary (hostile) transport, including
+failed opens, re-opens after close, calls on a closed handle — `next_req_id` advances by
+exactly the number of commands put on the wire, and those commands carry the consecutive ids
+`id0, id0+1, …` (mod 2^16) in the order they were sent (`IdsOk`): every command gets a fresh
+id, and nothing else — neither `open` nor `close` nor an error path — ever resets, skips or
+reuses an id. -/
+theorem ids_continue_across_history (hh : Honest dev) (p : Profile) :
+    ∀ (calls : List Call) (s : St σ), (∀ c ∈ calls, c.Typed) → s.h.nextReqId < 2 ^ 16 →
+      s.h.cfg.maxCmd < 2 ^ 32 →
+      ∃ evs, (runCalls dev p calls s).logRev = evs ++ s.logRev ∧
+        IdsOk s.h.nextReqId (runCalls dev p calls s).h.nextReqId evs := by
+  intro calls
+  induction calls with
+  | nil => intro s _ _ _; exact ⟨[], by simp [runCalls], IdsOk.nil _⟩
+  | cons c cs ih =>
+    intro s hty hid hu32
+    obtain ⟨⟨e1, l1, i1⟩, hid1, hu1⟩ := call_ids hh p s c (hty c (List.mem_cons_self ..)) hid hu32
+    obtain ⟨e2, l2, i2⟩ := ih (runCall dev p s c) (fun x hx => hty x (List.mem_cons_of_mem _ hx))
+      hid1 hu1
+    exact ⟨e2 ++ e1, by simp only [runCalls]; rw [l2, l1]; simp, i1.trans i2⟩
+
+/-- **open_after_failed_open_succeeds**: let `open` of a closed handle fail against an arbitrary
+(hostile) transport, the channel having been closed again (`opened = false`; otherwise the log
+shows the failed release, `open_failure_closes`).  Against ANY conforming device `dev2` (limits
+at least 24 / 20, control requests succeeding, bootstrap registers advertising `lim` and `T`,
+pending plan below the — unchanged — retry count) the next `open` of that handle succeeds and
+leaves it `C06.Ready` for `lim` with `timeout_duration = T`: nothing the failed attempt left
+behind (cached capability, buffer, request id, the reset 128/128 lengths) gets in the way. -/
+theorem open_after_failed_open_succeeds {σ2 M : Type} [Spec.Conf.MemLike M] {dev2 : Dev σ2}
+    {view2 : σ2 → Spec.Conf.View M} {lim : Spec.Conf.Limits} {plan : Nat → Nat} {ms : Nat}
+    (hh : Honest dev) (hc : Spec.Conf.Conforming dev2 view2 lim plan ms)
+    (hk : C06.CtlOk dev2 view2) (p : Profile) (s : St σ) (hid : s.h.nextReqId < 2 ^ 16)
+    (hclosedAgain : (Control.open dev p s).1.h.opened = false)
+    (d2 : σ2) (T sbrm : Nat) (hboot : C06.Boot (view2 d2).mem lim T sbrm)
+    (hplan : ∀ i, plan i < s.h.cfg.retry) (hcmd : 24 ≤ lim.maxCmd) (hack : 20 ≤ lim.maxAck)
+    (hms : ms < 2 ^ 16) :
+    ∃ s', Control.open dev2 p ⟨(Control.open dev p s).1.h, d2, []⟩ = (s', .ok ()) ∧
+      C06.Ready view2 s' lim plan ms ∧ s'.h.cfg.timeoutMs = T := by
+  obtain ⟨_, hretry, hid16, _, _, _⟩ := open_inv hh p s
+  obtain ⟨s', hs', hr, hT, _⟩ := C06.open_negotiates hc hk p
+    (⟨(Control.open dev p s).1.h, d2, []⟩ : St σ2) T sbrm hboot hclosedAgain (hid16 hid)
+    (by simp only; rw [hretry]; exact hplan) hcmd hack hms
+  exact ⟨s', hs', hr, hT⟩
+
 /-! ## Non-vacuity -/
+
+/-- a history with a failing open (garbage device), reads on the closed handle, a close -/
+example : (∀ c ∈ [Call.open, .read 0 4, .close, .open, .write 8 [1, 2]], c.Typed) := by
+  intro c hc; simp at hc; rcases hc with rfl | rfl | rfl | rfl | rfl <;> simp [Call.Typed]
+
 
 /-- the reference conforming device is honest -/
 example : Honest (Spec.Conf.refDev (M := Nat → UInt8) ⟨64, 64⟩ (fun _ => 0) 0) := by
@@ -284,5 +403,31 @@ example : (Control.read slowDev .dev slowState 0x1000 4).2 = .err .io ∧
       .ok [0x10, 0x11, 0x12, 0x13] ∧
     (Control.read slowDev .dev (Control.read slowDev .dev slowState 0x1000 4).1 0x2010 4).1.d.queue
       = [] := by decide +kernel
+
+/-- `disable_streaming` against the garbage device errs; against the reference device whose
+registers advertise an SBRM at 0x10000 with SIRM available at 0x20000 it clears SI_CONTROL -/
+example : (disableStreaming garbageDev .dev hostState Caches.empty).2.2 = .err .io := by
+  decide +kernel
+
+example :
+    let mem : Nat → UInt8 := fun a =>
+      if a = 0x01D8 + 2 then 1 else if a = 0x10004 then 1 else if a = 0x10020 + 2 then 2
+      else if a = 0x20004 then 0xFF else 0
+    let out := disableStreaming (Spec.Conf.refDev ⟨64, 64⟩ (fun _ => 0) 0) .dev
+      ⟨⟨0, ⟨1, 3, 64, 64⟩, 0, true, none⟩, ⟨mem, [], 0⟩, []⟩ Caches.empty
+    out.2.2 = .ok () ∧ out.2.1 = ⟨some (0x10000, 1), some 0x20000⟩ ∧
+      out.1.d.mem 0x20004 = 0 := by decide +kernel
+
+/-- ids over histories with failing opens, a close, calls on a closed handle and a re-open:
+a garbage device (two failed opens: ids 0, 1; the read on the closed handle sends nothing) and
+the slow reference device starting at id 7 (a failing read, a close, a refused read, a
+re-open, a read and a write): nine commands on the wire, ids 7..15 without gap or repeat. -/
+example : sentIds (runCalls garbageDev .release [.open, .close, .open, .read 0 4]
+      ⟨Handle.new, (), []⟩).logRev = [0, 1] ∧
+    (runCalls garbageDev .release [.open, .close, .open, .read 0 4]
+      ⟨Handle.new, (), []⟩).h.nextReqId = 2 ∧
+    sentIds (runCalls slowDev .dev
+      [.read 0x1000 4, .close, .read 0 4, .open, .read 0x2010 4, .write 3 [1, 2, 3]]
+      slowState).logRev = [7, 8, 9, 10, 11, 12, 13, 14, 15] := by decide +kernel
 
 end CamVerif.C07
